@@ -4,6 +4,10 @@ package processor
 
 import (
 	"context"
+	"encoding/json"
+	"fmt"
+	"strconv"
+	"strings"
 	"time"
 
 	"github.com/kafscale/platform/addons/processors/sql-processor/internal/checkpoint"
@@ -38,6 +42,100 @@ func (l vLister) ListCompleted(ctx context.Context) ([]discovery.SegmentRef, err
 		}
 		refs = append(refs, ref)
 	}
+	return refs, nil
+}
+
+// vRealLister drives the REAL listers of internal/discovery over an in-process S3 endpoint: the
+// bucket holds one completed .kfs/.index pair per scripted segment (plus decoys that are not
+// completed segments) and, for lister=manifest, a manifest.json naming the segments in the order
+// of the seg lines (rewritten whenever a segment completes; with lister=stale written at the first
+// tick only, so it falls behind the bucket); the cycle's S3 fault oracle is armed for exactly this
+// ListCompleted call.
+type vRealLister struct {
+	h        *vHarness
+	s3       *discovery.VerifC33S3
+	inner    discovery.Lister
+	manifest bool
+	stale    bool // lister=stale: manifest.json is written once (first tick) and never refreshed
+	written  bool
+	put      map[int]bool
+}
+
+func (l *vRealLister) sync() {
+	segs := l.h.listing()
+	changed := false
+	for i := range segs {
+		if l.put[i] {
+			continue
+		}
+		l.put[i] = true
+		changed = true
+		stem := vSegObjectKey(segs, i)
+		l.h.setKey(stem+".kfs", i)
+		l.s3.Put(stem+".kfs", []byte("records"+discovery.VerifC33FooterMagic))
+		l.s3.Put(stem+".index", []byte("idx"))
+		if !l.put[-1-segs[i].tp] {
+			l.put[-1-segs[i].tp] = true
+			topic, part := vTopic(segs[i].tp)
+			l.s3.Put(fmt.Sprintf("%s/%d/segment-%020d.kfs", topic, part, 900000), []byte("records still being writ"))
+			l.s3.Put(fmt.Sprintf("%s/%d/segment-%020d.index", topic, part, 900000), []byte("idx"))
+			l.s3.Put(fmt.Sprintf("%s/%d/segment-%020d.kfs", topic, part, 900100), []byte("records"+discovery.VerifC33FooterMagic))
+			l.s3.Put(fmt.Sprintf("%s/%d/segment-%020d.index", topic, part, 900200), []byte("idx"))
+		}
+	}
+	if l.manifest && changed && !(l.stale && l.written) {
+		l.written = true
+		// what ManifestBuilder.Build writes per entry (manifest_builder.go), in seg-line order
+		type entry struct {
+			Topic      string `json:"topic"`
+			Partition  int32  `json:"partition"`
+			SegmentKey string `json:"segment_key"`
+			IndexKey   string `json:"index_key"`
+			SizeBytes  int64  `json:"size_bytes"`
+			MinOffset  int64  `json:"min_offset"`
+		}
+		var entries []entry
+		for i := range segs {
+			topic, part := vTopic(segs[i].tp)
+			stem := vSegObjectKey(segs, i)
+			entries = append(entries, entry{Topic: topic, Partition: part, SegmentKey: stem + ".kfs", IndexKey: stem + ".index", SizeBytes: 11, MinOffset: vBase(segs, i)})
+		}
+		body, _ := json.Marshal(entries)
+		l.s3.Put("manifest.json", body)
+	}
+}
+
+func (l *vRealLister) ListCompleted(ctx context.Context) ([]discovery.SegmentRef, error) {
+	fail := l.h.onList()
+	l.sync() // the bucket (and manifest.json) follow the timeline also on a tick whose listing is scripted to fail
+	if fail {
+		return nil, errVerifInjected
+	}
+	segs := l.h.listing()
+	var arm []string
+	for _, x := range l.h.s3Oracle() {
+		switch {
+		case x == "L":
+			arm = append(arm, "L")
+		case x == "m":
+			arm = append(arm, "g:manifest.json")
+		case strings.HasPrefix(x, "p"):
+			if i, err := strconv.Atoi(x[1:]); err == nil && i >= 0 && i < len(segs) {
+				arm = append(arm, "p:"+vSegObjectKey(segs, i)+".kfs")
+			}
+		}
+	}
+	l.s3.Arm(arm)
+	refs, err := l.inner.ListCompleted(ctx)
+	l.s3.Arm(nil)
+	if err != nil {
+		return nil, err
+	}
+	keys := make([]string, 0, len(refs))
+	for _, r := range refs {
+		keys = append(keys, r.SegmentKey)
+	}
+	l.h.setListed(keys)
 	return refs, nil
 }
 
@@ -122,9 +220,24 @@ func vRunCase(c *vCase, settle func()) []string {
 			return real.CommitOffset(context.Background(), checkpoint.OffsetState{Topic: t, Partition: p, Offset: off})
 		}
 	}
+	var lister discovery.Lister = vLister{h}
+	switch c.lister {
+	case "":
+	case "s3":
+		s3 := discovery.VerifC33NewS3()
+		lister = &vRealLister{h: h, s3: s3, inner: s3.VerifC33Lister(""), put: map[int]bool{}}
+	case "manifest":
+		s3 := discovery.VerifC33NewS3()
+		lister = &vRealLister{h: h, s3: s3, inner: s3.VerifC33ManifestLister("", 0), manifest: true, put: map[int]bool{}}
+	case "stale":
+		s3 := discovery.VerifC33NewS3()
+		lister = &vRealLister{h: h, s3: s3, inner: s3.VerifC33ManifestLister("", 0), manifest: true, stale: true, put: map[int]bool{}}
+	default:
+		return []string{"panic"}
+	}
 	p := &Processor{
 		cfg:      config.Config{},
-		discover: vLister{h},
+		discover: lister,
 		decode:   vDecoder{h},
 		store:    vStore{h: h, inner: real},
 		sink:     vSink{h},
